@@ -14,3 +14,12 @@ package cmd
 //@   atcall AppendCertsFromPEM requires[C01] newPool(p0) && poolAdds[p0] == 0 && same(p1, data)
 //@   atcall AddCert requires[C01] newPool(p0) && poolAdds[p0] == 0 && certDer(p1) == val(data)
 //@   ensures[C01] err == nil ==> result0 != nil && fresh(result0) && newPool(result0) && poolAdds[result0] == 1
+
+// C16 (local-first, confined): the extract command hands its flags to extraction unchanged - the UEFI variable reader
+// is made for the --efivarfs root (not any other path), the event log location, manufacturer, quote, getter and the
+// force-fetch switch are the command's own.
+//@ func (*extractCommand).runE
+//@   requires c != nil && cmd != nil
+//@   modifies *
+//@   callspec MakeEfiVariableReader requires[C16] p0 == c.efivarloc
+//@   atcall Endorsement requires[C16] p0 != nil && p0.EventLogLocation == c.eventlogpath && p0.FirmwareManufacturer == c.manufacturer && p0.ForceFetch == c.forceFetch && same(p0.Quote, c.content) && same(p0.Getter, backend.Getter) && same(p0.UEFIVariableReader, reader)
